@@ -135,6 +135,19 @@ class P:
                     seq.append(p_ + hx(use)); want.append(val or "OKANY")
                 seq.append("EXEC:3:" + hx("1 + 2 * 3")); want.append("n(0,7,0)")
                 items.append((" ".join(seq), ("after-fault", None, want, 0)))
+        # a program that calls a name nobody registered leaves nothing behind: `ns.foo(..)` (a dotted name is a name of its own) fails
+        # before and after `foo` is registered and replaced, on this thread and on others, and `foo(..)` is the latest `foo`
+        for nm in ("ns.foo", "foo.bar", "Foo", "foo_", "_foo", "foo1"):
+            seq = ["H:31:rs(%s)" % hx("h31"), "H:32:rs(%s)" % hx("h32"), "REGF:%s:31" % hx("foo")]
+            want = [None, None, None]
+            for step in (["EXEC:1:" + hx("%s(1)" % nm), "@t/EXEC:2:" + hx("[%s(1)]" % nm), "EXEC:1:" + hx("foo(1)")], ["REGF:%s:32" % hx("foo")],
+                         ["EXEC:1:" + hx("%s(1)" % nm), "@t/EXEC:2:" + hx("1 + %s(2)" % nm), "EXEC:3:" + hx("foo(1)"), "@t/EXEC:1:" + hx("foo(1)")]):
+                for o in step:
+                    seq.append(o)
+                    if o.startswith("REGF"): want.append(None)
+                    elif hx(nm + "(") in o: want.append("FAULT")
+                    else: want.append("s(%s)" % hx("h32" if "REGF:%s:32" % hx("foo") in seq else "h31"))
+            items.append((" ".join(seq), ("after-fault", None, want, 0)))
         # what other threads parse CONCURRENTLY must not change what a later call does: rounds of a registration racing the first
         # uses of that spelling on other threads, each followed by a sequential use whose result is fixed by the registrations
         # made so far (whatever a racing parse left in a cache on the way must not be observable afterwards)
